@@ -146,6 +146,10 @@ async fn run_task(task: usize, prog: Vec<Value>, mut io: TaskIo, inc: u32) {
                 }
                 json!("ok")
             }
+            "panic" => {
+                record(task, step, json!("panic"), inc);
+                panic!("scripted task panic")
+            }
             other => panic!("unknown step {other}"),
         };
         record(task, step, res, inc);
@@ -158,6 +162,8 @@ struct AMod {
     inc: u32,
     tx0: std::rc::Rc<RefCell<Option<UnboundedSender<()>>>>,
     pe_forward: bool,
+    /// 0 = ModuleContext::join, 1 = try_join, 2 = handle dropped
+    join_mode: u8,
 }
 
 /// consumes every message of the module and forwards it into channel 0 (the module's handler never runs)
@@ -201,7 +207,11 @@ impl Module for AMod {
             let io = TaskIo { tx: txs.clone(), rx: mine.and_then(|c| rxs[c].take().map(|r| (c, r))) };
             let fut = run_task(t, self.progs[t].clone(), io, self.inc);
             let h = if self.local { tokio::task::spawn_local(fut) } else { tokio::spawn(fut) };
-            current().join(h);
+            match self.join_mode {
+                0 => current().join(h),
+                1 => current().try_join(h),
+                _ => drop(h),
+            }
         }
     }
     fn handle_message(&mut self, _msg: Message) {
@@ -219,30 +229,37 @@ pub struct AOutcome {
     pub task_state_live: i64,
     pub obs: Vec<Vec<Value>>,
     pub not_finished: usize,
+    pub task_panics: usize,
     pub other_errors: usize,
     pub panicked: bool,
 }
 
 pub fn run_programs(progs: &[Vec<Value>], local: bool, tick_ns: u64, max_t: u64, pe_forward: bool) -> AOutcome {
+    run_programs_join(progs, local, tick_ns, max_t, pe_forward, 0)
+}
+
+pub fn run_programs_join(progs: &[Vec<Value>], local: bool, tick_ns: u64, max_t: u64, pe_forward: bool, join_mode: u8) -> AOutcome {
     silence_panics();
     OBS.with(|o| *o.borrow_mut() = vec![Vec::new(); progs.len()]);
     TASK_STATE_LIVE.with(|l| *l.borrow_mut() = 0);
     TICK.with(|t| *t.borrow_mut() = Duration::from_nanos(tick_ns));
     let r = catch_unwind(AssertUnwindSafe(|| {
         let mut sim = Sim::new(());
-        sim.node("m", AMod { progs: progs.to_vec(), local, inc: 1, tx0: std::rc::Rc::new(RefCell::new(None)), pe_forward });
+        sim.node("m", AMod { progs: progs.to_vec(), local, inc: 1, tx0: std::rc::Rc::new(RefCell::new(None)), pe_forward, join_mode });
         let rt = Builder::seeded(5).quiet().max_time(SimTime::from_duration(Duration::from_nanos(tick_ns) * max_t as u32 + Duration::from_nanos(tick_ns / 2))).build(sim.freeze());
         rt.run()
     }));
-    let mut out = AOutcome { task_state_live: 0, obs: Vec::new(), not_finished: 0, other_errors: 0, panicked: false };
+    let mut out = AOutcome { task_state_live: 0, obs: Vec::new(), not_finished: 0, task_panics: 0, other_errors: 0, panicked: false };
     match r {
         Err(_) => out.panicked = true,
-        Ok(Ok(_)) => {}
+        Ok(Ok(res)) => drop(res),      // (Sim, end time, profiler): released before the live counters are read
         Ok(Err(e)) => {
             for x in e.iter() {
                 let txt = format!("{x}");
                 if txt.contains("NotFinished") {
                     out.not_finished += 1;
+                } else if txt.starts_with("m: Paniced") {
+                    out.task_panics += 1;
                 } else {
                     out.other_errors += 1;
                 }
@@ -280,12 +297,14 @@ pub fn replay(args: &[String]) {
             "local" => vec![true],
             _ => vec![false, true],
         };
-        for local in kinds {
+        let join_modes: Vec<u8> = if arg_u64(args, "--join-modes", 0) == 1 { vec![0, 1, 2] } else { vec![0] };
+        let kinds: Vec<(bool, u8)> = kinds.into_iter().flat_map(|l| join_modes.iter().map(move |j| (l, *j))).collect();
+        for (local, join_mode) in kinds {
             s.replays += 1;
-            watchdog::enter(|| json!({"prog": v["prog"], "spawn_local": local}).to_string());
-            let out = run_programs(&progs, local, tick_ns, max_t, pe_forward);
+            watchdog::enter(|| json!({"prog": v["prog"], "spawn_local": local, "join_mode": join_mode}).to_string());
+            let out = run_programs_join(&progs, local, tick_ns, max_t, pe_forward, join_mode);
             let mut fail = |field: String, extra: Value| {
-                let mut m = json!({"field": field, "behaviour": v, "spawn_local": local, "max_t": max_t, "tasks": progs.len(), "tick_ns": tick_ns, "pe_forward": pe_forward});
+                let mut m = json!({"field": field, "behaviour": v, "spawn_local": local, "join_mode": join_mode, "max_t": max_t, "tasks": progs.len(), "tick_ns": tick_ns, "pe_forward": pe_forward});
                 if let Some(o) = extra.as_object() {
                     for (k, x) in o {
                         m[k] = x.clone();
@@ -321,11 +340,15 @@ pub fn replay(args: &[String]) {
                 continue;
             }
             if !restart {
-                let unf = v["unfinished"].as_array().unwrap().len();
-                if out.not_finished != unf || out.other_errors != 0 {
-                    fail("run() result: number of joined tasks reported as not finished".into(), json!({"expected": unf, "got": out.not_finished, "other_errors": out.other_errors}));
+                // join: every unfinished task and every panicked task is reported; try_join: only the panicked ones;
+                // handle dropped: nothing is reported
+                let unf = if join_mode == 0 { v["unfinished"].as_array().unwrap().len() } else { 0 };
+                let pan = if join_mode <= 1 { v.get("panicked").and_then(Value::as_array).map(|a| a.len()).unwrap_or(0) } else { 0 };
+                if out.not_finished != unf || out.task_panics != pan || out.other_errors != 0 {
+                    fail("run() result: joined tasks reported as not finished / panicked".into(), json!({"expected": [unf, pan], "got": [out.not_finished, out.task_panics], "other_errors": out.other_errors}));
                     continue;
                 }
+                if pan > 0 { s.bump("runs_reporting_task_panics", 1); }
             }
             s.checks += exp.iter().map(|e| e.len() as u64).sum::<u64>() + 1;
         }
